@@ -55,7 +55,19 @@ pub fn main(args: &[String]) -> i32 {
         }
     }
     let text = std::fs::read_to_string(&corpus).expect("corpus");
-    let lines: Vec<&str> = text.lines().filter(|l| !l.is_empty()).collect();
+    let mut lines: Vec<&str> = text.lines().filter(|l| !l.is_empty()).collect();
+    // multi-byte text (the specification's strings are ASCII): short writes end inside characters
+    let extra: Vec<String> = [
+        "n\u{e9}e {{ 'x' }}\u{65e5}\u{672c}{% if true %}\u{1f600}{% endif %}",
+        "{% raw %}\u{fc}{{ \u{1f600} }}{% endraw %}\u{e9}",
+        "{% for i in (1..2) %}\u{e9}{{ i }}{% endfor %}{% capture c %}\u{65e5}{% endcapture %}{{ c }}{% ifchanged %}\u{fc}{% endifchanged %}",
+        "{{ '\u{e9}\u{1f600}' }}{{ '\u{e9}' | upcase }}{% cycle '\u{65e5}', 'b' %}",
+    ]
+    .iter()
+    .map(|s| json!({"src": s, "parts": {}, "data": {}}).to_string())
+    .collect();
+    let n_corpus = lines.len();
+    lines.extend(extra.iter().map(|s| s.as_str()));
     // a seeded stride through the corpus when it is larger than --max
     let stride = if lines.len() > max_programs { lines.len() / max_programs } else { 1 };
     let offset = if stride > 1 { (seed as usize) % stride } else { 0 };
@@ -64,11 +76,14 @@ pub fn main(args: &[String]) -> i32 {
     let mut samples: Vec<J> = Vec::new();
     std::panic::set_hook(Box::new(|_| {}));
     for (idx, line) in lines.iter().enumerate() {
-        if idx % stride != offset || programs as usize >= max_programs {
+        if idx < n_corpus && (idx % stride != offset || programs as usize >= max_programs) {
             continue;
         }
         let rec: J = serde_json::from_str(line).expect("json");
-        let src = ast::block(&rec["prog"]).expect("print");
+        let src = match rec.get("src").and_then(|s| s.as_str()) {
+            Some(s) => s.to_string(),
+            None => ast::block(&rec["prog"]).expect("print"),
+        };
         let parts = partial_sources(&rec["parts"]).expect("parts");
         let data = dec_object(&rec["data"]).expect("data");
         let parser = build_parser("eager", &parts).expect("parser");
